@@ -502,7 +502,7 @@ type emitter struct {
 func newEmitter(dir, prop, header string, perShard int) *emitter {
 	os.MkdirAll(dir, 0o755)
 	return &emitter{dir: dir, prop: prop, header: header, perShard: perShard,
-		seen: map[string]bool{}, m: meta{Property: prop, Dist: map[string]int{}}}
+		seen: map[string]bool{}, m: meta{Property: prop, Dist: map[string]int{}, ImplFails: []implFail{}}}
 }
 
 // add registers one case: its Gallina term, a JSON-able replay description, whether it is
